@@ -717,7 +717,54 @@ impl OrdSpecImpl for Version { open spec fn obeys_cmp_spec() -> bool { true } op
             g.emit(mod, text + '\n')
         return u
     for n in K.GRAMMAR_ORDER:
-        g.unit(n, grammar_fn(n))
+        if not K.GRAMMAR[n].get('custom'):
+            g.unit(n, grammar_fn(n))
+
+    # hyphen: the nested `fn parser` is a unit of its own (R18: it is removed from `hyphen`'s body, where the name then resolves to the
+    # caller's view of it); inside it the block that computes the bounds is replaced by a call to hyphen_desugar_whole (R5b)
+    def u_hy_whole():
+        hyf = top_fn(RNG, 'hyphen').code
+        mm = re.search(r'let (\w+) = opt\(partial_version\)\.parse_next\(input\)\?;.*?let (\w+) = partial_version\(input\)\?;\s*let \2 = match \2 \{.*?\n\s*Ok\((\w+)\)\s*\}', hyf, re.S)
+        if not mm:
+            raise AnchorLost('hyphen::parser: lower = opt(partial_version), upper = partial_version, .. Ok(bounds)')
+        lo, up, bd = mm.group(1), mm.group(2), mm.group(3)
+        hy = between(RNG, 'hyphen', 'let %s = match %s' % (up, up), 'Ok(%s)' % bd, 'block in hyphen::parser')
+        g.emit('m_desugar', K.hyphen_post_text())
+        grid = ['    requires wf_partial(%s), %s matches Some(f) ==> wf_partial(f),' % (up, lo), '    ensures hyphen_post(%s, %s, r),  // @hyphen#post' % (lo, up)]
+        g.emit('m_desugar', lifted('hyphen_desugar_whole', '(%s: Option<Partial>, %s: Partial) -> (r: Option<BoundSet>)' % (lo, up), grid, hy, tail='\n ' + bd))
+    g.unit('hyphen_desugar_whole', u_hy_whole)
+
+    def u_hy_parser():
+        f = top_fn(RNG, 'hyphen')
+        t = f.verbatim
+        m0 = re.search(r"fn parser<'s>\(input: &mut &'s str\) -> PResult<Option<BoundSet>, SemverParseError<&'s str>> \{", f.code)
+        if not m0:
+            raise AnchorLost('hyphen(): nested `fn parser`')
+        ob = m0.end() - 1
+        e = match_brace(f.code, ob)
+        nested = Slice(RNG, f.start + m0.start(), f.start + e, 'hyphen::parser')
+        body = nested.verbatim[nested.verbatim.index('{'):]
+        mm = re.search(r'let (\w+) = opt\(partial_version\)\.parse_next\(input\)\?;.*?let (\w+) = partial_version\(input\)\?;\s*(let \2 = match \2 \{.*?)\n\s*Ok\((\w+)\)\s*\}', mask_code(body), re.S)
+        if not mm:
+            raise AnchorLost('hyphen::parser: lower = opt(partial_version), upper = partial_version, .. Ok(bounds)')
+        lo, up, bd = mm.group(1), mm.group(2), mm.group(4)
+        body = body[:mm.start(3)] + 'let %s = hyphen_desugar_whole(%s, %s);' % (bd, lo, up) + body[mm.end(3):]
+        nested.rewrites.append('R5b the block that computes the bounds replaced by a call to hyphen_desugar_whole (the same text, lifted and proved against hyphen_post)')
+        d = K.GRAMMAR['parser']
+        mod = 'm_vg_parser'
+        g.private_mods.add(mod)
+        g.rec(nested, 'parser', mod, 'fn', dropped='nothing of the function; winnow combinators are assumed contracts (A15)')
+        g.emit(mod, K.grammar_sig('parser') + '\n' + (K.GRAMMAR_CONTRACT % ('parser', 'parser')) + '\n{\n    broadcast use winnow_defs, grammar_defs;\n    ' + d['entry'] + body[1:] + '\n')
+        # the wrapper
+        outer = t[:m0.start()] + t[e:]
+        ob2 = outer.index('{')
+        w = Slice(RNG, f.start, f.end, 'hyphen (wrapper)')
+        w.rewrites.append('R18 nested fn parser removed (verified as its own unit); `parser` resolves to its contract')
+        mod2 = 'm_vg_hyphen'
+        g.private_mods.add(mod2)
+        g.rec(w, 'hyphen', mod2, 'fn', dropped='the nested fn (own unit)')
+        g.emit(mod2, K.grammar_sig('hyphen') + '\n' + (K.GRAMMAR_CONTRACT % ('hyphen', 'hyphen')) + '\n{\n    broadcast use winnow_defs, grammar_defs;\n    ' + outer[ob2 + 1:] + '\n')
+    g.unit('parser', u_hy_parser)
 
     def u_version_parse():
         lo, hi = impl_span(LIB, r'^impl Version \{')
